@@ -367,8 +367,16 @@ void thrift_read_map_begin(thrift_decoder_t* dec,
  * ============================================================================
  */
 
-void thrift_skip(thrift_decoder_t* dec, thrift_type_t type) {
+/* Skips one value.  depth counts the containers/structs enclosing it inside the
+ * skipped field: nesting is bounded like struct nesting is, so that hostile input
+ * (e.g. a long run of 0x19 list headers) cannot recurse until the stack overflows. */
+static void skip_value(thrift_decoder_t* dec, thrift_type_t type, int depth) {
     if (dec->status != CARQUET_OK) {
+        return;
+    }
+
+    if (depth >= THRIFT_MAX_NESTING) {
+        set_error(dec, CARQUET_ERROR_THRIFT_DECODE, "Nesting too deep while skipping");
         return;
     }
 
@@ -412,7 +420,7 @@ void thrift_skip(thrift_decoder_t* dec, thrift_type_t type) {
             int32_t count;
             thrift_read_list_begin(dec, &elem_type, &count);
             for (int32_t i = 0; i < count && dec->status == CARQUET_OK; i++) {
-                thrift_skip(dec, elem_type);
+                skip_value(dec, elem_type, depth + 1);
             }
             break;
         }
@@ -422,8 +430,8 @@ void thrift_skip(thrift_decoder_t* dec, thrift_type_t type) {
             int32_t count;
             thrift_read_map_begin(dec, &key_type, &value_type, &count);
             for (int32_t i = 0; i < count && dec->status == CARQUET_OK; i++) {
-                thrift_skip(dec, key_type);
-                thrift_skip(dec, value_type);
+                skip_value(dec, key_type, depth + 1);
+                skip_value(dec, value_type, depth + 1);
             }
             break;
         }
@@ -433,7 +441,7 @@ void thrift_skip(thrift_decoder_t* dec, thrift_type_t type) {
             thrift_type_t field_type;
             int16_t field_id;
             while (thrift_read_field_begin(dec, &field_type, &field_id)) {
-                thrift_skip(dec, field_type);
+                skip_value(dec, field_type, depth + 1);
             }
             thrift_read_struct_end(dec);
             break;
@@ -447,6 +455,10 @@ void thrift_skip(thrift_decoder_t* dec, thrift_type_t type) {
             set_error(dec, CARQUET_ERROR_THRIFT_INVALID_TYPE, "Unknown type to skip");
             break;
     }
+}
+
+void thrift_skip(thrift_decoder_t* dec, thrift_type_t type) {
+    skip_value(dec, type, 0);
 }
 
 /* ============================================================================
